@@ -480,15 +480,26 @@ def sep_required(first: str, second: str) -> bool:
     """
     Returns, whether a separator is strictly necessary between 2 tokens
 
-    :param first: last character of first token
-    :param second: first character of second token
+    :param first: first token (or its last character)
+    :param second: second token (or its first character)
     :return: if the token is required
     """
+    word: str = string.ascii_letters + string.digits + "_"
+    last: str = first[-1]
+    start: str = second[0]
     return (
-        first in string.ascii_letters + string.digits
-        and second in string.ascii_letters + string.digits
-        or first == "-"
-        and second == "-"
+        last in word
+        and start in word
+        or last == "-"
+        and start == "-"
+        # a numeral or a dot must not touch a following dot
+        or start == "."
+        and (last == "." or first[0] in string.digits)
+        # `>` of an attribute before `=`, `[` before a long bracket
+        or last in "<>=~"
+        and start == "="
+        or last == "["
+        and start in "[="
     )
 
 
@@ -533,7 +544,7 @@ def remove_separators(token_stream: Retype) -> None:
             if (
                 isinstance(previous_token, Separators)
                 or isinstance(next_token, Separators)
-                or not sep_required(previous_token[-1], next_token[0])
+                or not sep_required(previous_token, next_token)
             ):
                 token_stream.pop(i)
     # Remove the dummy token again
